@@ -29,7 +29,7 @@
 From Coq Require Import ZArith List Bool String.
 From Low Require Import Lib.Bits Lib.BitSeq Lib.Val Model.BuilderOps Model.BitmapOf Spec.OfSpec
   Model.BitmapMask12 Spec.MaskSpec12 Model.BitmapFmt12 Spec.FmtSpec12
-  Model.Rank Model.BitmapNext Spec.OfQuerySpec.
+  Model.Rank Model.BitmapNext Spec.OfQuerySpec Model.BuilderMem Spec.BuilderMemSpec.
 Import ListNotations.
 Open Scope string_scope.
 Open Scope Z_scope.
@@ -299,4 +299,97 @@ Definition ops_C12_any : list opdef := [
        | _, _ => false end |}
 ].
 
-Definition ops_C12 : list opdef := ops_C12_core ++ ops_C12_wide ++ ops_C12_query ++ ops_C12_any.
+(** * Builder over caller-supplied buffers, roll-backs, and sessions that mix Of with a Builder *)
+(** [bitmap.Builder/mem] [ws0; spare; off0; [op...]]  b := &Builder{Words: buf[:len ws0], Offset: off0} over a buffer
+      holding ws0 followed by [spare] junk words; op = [0; ps; size] (Extend) | [1; p; v] (Set) |
+      [2; k] (b.Words = b.Words[:k]; b.Offset = 64k)      -> [[Words; Offset] at the start and after every op]
+    [bitmap.Of/session] [n; [op...]]  e := Of(nil, n); b := &Builder{Words: e}; the ops on b; then Of([], n),
+      OfMany([[],[]], [n, 0]), junk written into both results, Of([], n) again
+                                                          -> [e; [[Words; Offset]...]; Of; OfMany; Of] *)
+Definition as_mop (v : val) : option mop :=
+  match v with
+  | VL [VZ 2; VZ k] => Some (MRollback k)
+  | _ => match as_bop v with Some o => Some (MStep o) | None => None end
+  end.
+Definition as_mops (v : val) : option (list mop) :=
+  match v with VL l => opt_all (map as_mop l) | _ => None end.
+
+Definition abs_empty : abs := {| abits := []; aoff := 0 |}.
+
+Definition ops_C12_mem : list opdef := [
+  {| op_name := "bitmap.Builder/mem";
+     op_run := fun a => match a with
+       | [ws0; spare; off0; ops] => match as_zs ws0, as_z spare, as_z off0, as_mops ops with
+           | Some ws0, Some _, Some off0, Some ops =>
+               if start_dom ws0 off0 && mhist_dom (abs_of ws0 off0) ops then
+                 match mrun {| Words := ws0; Offset := off0 |} ops with
+                 | Some bs => VL (map vbuilder bs)
+                 | None => VPanic end
+               else VBad
+           | _, _, _, _ => VBad end
+       | _ => VBad end;
+     op_spec := fun a obs => match a with
+       | [ws0; spare; off0; ops] => match as_zs ws0, as_z off0, as_mops ops, obs with
+           | Some ws0, Some off0, Some ops, VL obs => builder_hist_ok (amrun (abs_of ws0 off0) ops) obs
+           | _, _, _, _ => false end
+       | _ => false end |};
+  {| op_name := "bitmap.Of/session";
+     op_run := fun a => match a with
+       | [n; ops] => match as_z n, as_mops ops with
+           | Some n, Some ops =>
+               if (0 <=? n) && mhist_dom abs_empty ops then
+                 match Of [] (Some n), OfMany [[]; []] [n; 0] with
+                 | Some e, Some m =>
+                     match mrun {| Words := e; Offset := 0 |} ops with
+                     | Some bs => VL [vzs e; VL (map vbuilder bs); vzs e; vzs m; vzs e]
+                     | None => VPanic end
+                 | _, _ => VPanic end
+               else VBad
+           | _, _ => VBad end
+       | _ => VBad end;
+     op_spec := fun a obs => match a with
+       | [n; ops] => match as_z n, as_mops ops, obs with
+           | Some n, Some ops, VL [e1; VL sts; e2; m; e3] =>
+               match as_zs e1, as_zs e2, as_zs m, as_zs e3 with
+               | Some e1, Some e2, Some m, Some e3 =>
+                   spec_Of_ok [] (Some n) e1 && spec_Of_ok [] (Some n) e2 && spec_Of_ok [] (Some n) m &&
+                   spec_Of_ok [] (Some n) e3 && builder_hist_ok (amrun abs_empty ops) sts
+               | _, _, _, _ => false end
+           | _, _, _ => false end
+       | _ => false end |}
+  ;
+  (* [bitmap.OfMany/shared] [flat; [[lo; hi]...]; sizes]  subs[i] = flat[lo:hi], all windows of ONE buffer (any order,
+     overlapping allowed, capacity running to the end of the buffer); OfMany twice on the same arguments
+     -> [first result; second result; 1 if flat is unchanged afterwards else 0] *)
+  {| op_name := "bitmap.OfMany/shared";
+     op_run := fun a => match a with
+       | [flat; cuts; sizes] => match as_zs flat, as_zss cuts, as_zs sizes with
+           | Some flat, Some cuts, Some sizes =>
+               match opt_all (map (fun c => match c with
+                                            | [lo; hi] => if (0 <=? lo) && (lo <=? hi) && (hi <=? zlen flat)
+                                                          then Some (firstn (Z.to_nat (hi - lo)) (skipn (Z.to_nat lo) flat))
+                                                          else None
+                                            | _ => None end) cuts) with
+               | Some subs =>
+                   if ofmany_dom2 subs sizes then
+                     match OfMany subs sizes with
+                     | Some r => VL [vzs r; vzs r; VZ 1]
+                     | None => VPanic end
+                   else VBad
+               | None => VBad end
+           | _, _, _ => VBad end
+       | _ => VBad end;
+     op_spec := fun a obs => match a with
+       | [flat; cuts; sizes] => match as_zs flat, as_zss cuts, as_zs sizes, obs with
+           | Some flat, Some cuts, Some sizes, VL [r1; r2; VZ 1] =>
+               let subs := map (fun c => match c with
+                                         | [lo; hi] => firstn (Z.to_nat (hi - lo)) (skipn (Z.to_nat lo) flat)
+                                         | _ => [] end) cuts in
+               match as_zs r1, as_zs r2 with
+               | Some r1, Some r2 => spec_OfMany_ok subs sizes r1 && spec_OfMany_ok subs sizes r2
+               | _, _ => false end
+           | _, _, _, _ => false end
+       | _ => false end |}
+].
+
+Definition ops_C12 : list opdef := ops_C12_core ++ ops_C12_wide ++ ops_C12_query ++ ops_C12_any ++ ops_C12_mem.
